@@ -187,6 +187,8 @@ PATHS = [
     ("closes", "M0,0 h5 v5 z m8,1 h2 z"), ("zero-segs", "M0,0 L0,0 L3,4 Q3,4 3,4 L6,8"), ("arc", "M0,0 A5,5 0 0 1 10,0 L10,5"),
     ("ellarc", "M0,0 A10,5 30 0 1 7,4 L2,2"), ("smooth", "M0,0 C1,2 3,4 5,1 S9,-3 11,0"), ("move-first-only", "M3,3"),
     ("leading-moves", "M9,9 M0,0 L4,3"),
+    # the other white space of the path grammar (CR LF line ends, tabs, form feeds): the length is that of ALL the data
+    ("ws-crlf", "M0,0\r\nL30,0\r\nQ40,10 30,20\r\nL0,20 z"), ("ws-tab-ff", "M0,0\tL3,4\x0cC1,2\t3,4 5,1\n"),
 ]
 SHAPES = ["rect", "rrect", "circle", "ellipse", "sline", "polyline", "polygon"]
 GRID = [i / 32.0 for i in range(33)]
@@ -414,8 +416,30 @@ class Derived(SubCheck):
         return None
 
 
+def refused_check(svg):
+    """a measurement that is refused (an error bound / depth that is no number) must leave nothing behind: the next,
+    ordinary measurement of the same object equals that of an object never asked the refused question"""
+    from props import failsafe
+    sc = []
+    objs = {"path-llc": lambda: svg.Path("M0,0 L30,0 L30,40 C 40,50 60,50 70,40"),
+            "path-lqa": lambda: svg.Path("M1,1 L3,-2 Q7,5 -4,1.5 A10,5 30 0 1 7,4 z"),
+            "path-cl": lambda: svg.Path("M0,0 C1,2 3,4 5,1 L9,9"),
+            "rrect": lambda: svg.Rect(2, 3, 7, 5, 1.5, 1), "ellipse": lambda: svg.Ellipse(4, -3, 2.5, 1.25),
+            "polyline": lambda: svg.Polyline((1, 2), (6, -4), (8, 3))}
+    attempts = {"length(error=None)": lambda o: o.length(error=None), "length(error='x')": lambda o: o.length(error="x"),
+                "length(min_depth=None)": lambda o: o.length(min_depth=None),
+                "point(0.5, error=None)": lambda o: o.point(0.5, error=None) if isinstance(o, svg.Path) else o.length(error=None),
+                "point('x')": lambda o: o.point("x")}
+    follow = {"length": lambda o: round(o.length(error=1e-6), 9), "point(0.3)": lambda o: o.point(0.3),
+              "point(0.8)+length": lambda o: (o.point(0.8), round(o.length(), 9))}
+    for on, mk in objs.items():
+        for an, at in attempts.items():
+            sc.append(dict(name="%s.%s" % (on, an), fresh=mk, attempt=at, follow=follow))
+    return failsafe.Refused(svg, sc)
+
+
 def build(tier, seed, svg):
-    return [Segments(svg, tier), Paths(svg, tier)] + stale_check(svg, tier)
+    return [Segments(svg, tier), Paths(svg, tier)] + stale_check(svg, tier) + [refused_check(svg)]
 
 
 
